@@ -558,6 +558,7 @@ def in_intervals(c, ivs: Iterable[tuple[int, int]]):
 
 
 def _in_intervals(c, ivs):
+    ivs = [(lo, hi) for lo, hi in ivs if lo <= hi]
     parts = []
     for lo, hi in ivs:
         if lo == hi:
